@@ -11,6 +11,7 @@ output: per op  `<result> ~ <object shadows> ~ <all radios> ~ <new air records>`
 import NrfModel.Drv.Util
 import NrfModel.Rf24
 import NrfModel.BleDev
+import NrfModel.Drv.Lite
 
 namespace Nrf.Drv
 open Nrf
@@ -45,6 +46,7 @@ def showAir (a : AirRec) : String := s!"{a.sender}>{showPacket a.pkt}x{a.attempt
 inductive Obj where
   | rf (d : Rf24)
   | ble (b : BleDev)
+  | lite (l : Lite)
   deriving Repr, Inhabited
 
 structure Sess where
@@ -201,6 +203,7 @@ def showBle (b : BleDev) : String := showRf24 b.rf ++ s!" cf={b.currFreq}"
 def showObj : Obj → String
   | .rf d => showRf24 d
   | .ble b => showBle b
+  | .lite l => showLite l
 
 def runB {α} (b : BleDev) (w : World) (m : BleM α) (sh : α → String) : String × BleDev × World :=
   let (r, s) := (m.run).run { b := b, w := w }
@@ -240,6 +243,10 @@ def sessStep (s : Sess) (toks : List String) : Option (String × Sess) :=
     let rid ← parseNat rid
     let (res, b, w) := runB { rf := { rid := rid } } s.w BleDev.init sUnit
     some (res ++ " ~ " ++ showBle b, { s with w := w, objs := (name, .ble b) :: s.objs.filter (·.1 ≠ name) })
+  | ["new", name, "lite", rid] => do
+    let rid ← parseNat rid
+    let (res, l, w) := runL { rid := rid } s.w Lite.init sUnit
+    some (res ++ " ~ " ++ showLite l, { s with w := w, objs := (name, .lite l) :: s.objs.filter (·.1 ≠ name) })
   | ["env", "inject", rid, pipe, data] => do
     let rid ← parseNat rid; let pipe ← parseNat pipe; let data ← unhex data
     some ("ok ~ -", { s with w := s.w.inject rid pipe data })
@@ -260,6 +267,10 @@ def sessStep (s : Sess) (toks : List String) : Option (String × Sess) :=
       let (res, b', w') ← bleCall b s.w rest
       some (res ++ " ~ " ++ showBle b',
             { s with w := w', objs := s.objs.map fun (n, o) => if n = name then (n, .ble b') else (n, o) })
+    | some (.lite l) =>
+      let (res, l', w') ← liteCall l s.w rest
+      some (res ++ " ~ " ++ showLite l',
+            { s with w := w', objs := s.objs.map fun (n, o) => if n = name then (n, .lite l') else (n, o) })
   | _ => none
 
 def splitOps (toks : List String) : List (List String) :=
